@@ -99,6 +99,9 @@ const shards = 6
 func TestCheck(t *testing.T) {
 	crashkit.MaybeChild()
 	r := runner.Start("C05", "model_checking")
+	if qcheck.HandleReplay(r, []qcheck.Spec{{Name: "c05", Extra: readiness}}, nil) {
+		r.Finish()
+	}
 	var jobs []job
 	for s := 0; s < shards; s++ {
 		// memory: with the order-list compaction thresholds lowered, so that compactions happen inside the histories
